@@ -3,3 +3,7 @@ package fixture
 import "context"
 
 func contextBackground() context.Context { return context.Background() }
+
+func authorityContext(c *CA) context.Context {
+	return authorityNewContext(c)
+}
